@@ -79,6 +79,15 @@ pub fn bit_patterns() -> Vec<Vec<BigUint>> {
     for i in POS_ALPHABET {
         v.push((0..20).map(|k| ((i >> k) & 1) as u8).collect());
     }
+    // exactly two levels set, every pair of levels
+    for a in 0..20 {
+        for b in (a + 1)..20 {
+            let mut x = vec![0u8; 20];
+            x[a] = 1;
+            x[b] = 1;
+            v.push(x);
+        }
+    }
     let mut seen = std::collections::BTreeSet::new();
     v.retain(|b| seen.insert(b.clone()));
     v.into_iter().map(|b| b.into_iter().map(|x| big(x as u64)).collect()).collect()
@@ -86,7 +95,7 @@ pub fn bit_patterns() -> Vec<Vec<BigUint>> {
 pub const POS_ALPHABET: [u64; 11] = [0, 1, 255, 256, (1 << 19) - 1, 1 << 19, (1 << 19) + 1, 0xAAAAA, 0x55555, (1 << 20) - 2, (1 << 20) - 1];
 
 pub fn limit_id_valid() -> Vec<(u64, u64)> {
-    vec![(100, 1), (1, 0), (2, 0), (2, 1), (100, 0), (100, 99), (65535, 65534), (65535, 0)]
+    vec![(100, 1), (1, 0), (2, 0), (2, 1), (100, 0), (100, 99), (65535, 65534), (65535, 0), (256, 255), (257, 256), (65536, 65535), (65536, 0), (65536, 256)]
 }
 
 /// field alphabet: F* plus 64-bit limb boundaries plus seeded random values
@@ -145,6 +154,14 @@ pub fn witness_coords(seed: u64, randoms: usize, limbs: bool, path_positions: &[
             for v in fa.iter().cloned() {
                 alts.push(Box::new(move |c: &mut CircuitInputs| c.path[pos] = v.clone()));
             }
+        }
+        // a sibling equal to the running hash at its level (both children of that node equal)
+        for pos in [0usize, 7, 19] {
+            alts.push(Box::new(move |c: &mut CircuitInputs| {
+                let rate = rate_commitment(&c.secret, &c.limit);
+                let bits: Vec<u8> = c.bits.iter().map(|b| if *b == big(0) { 0 } else { 1 }).collect();
+                c.path[pos] = fold_path(&rate, &c.path[..pos], &bits[..pos]);
+            }));
         }
         coords.push(Coord { name: "path element".into(), alts });
     }
